@@ -29,6 +29,9 @@ import (
 
 var shimOf = map[string]string{"sync": "vsync", "sync/atomic": "vatomic", "os": "vos"}
 
+// fixedShim: packages replaced by a hand-written stand-in (same API), not a generated one
+var fixedShim = map[string]string{"golang.org/x/sync/semaphore": "vsem"}
+
 func main() {
 	out := flag.String("out", "", "output dir")
 	mod := flag.String("mod", "github.com/buchgr/bazel-remote/v2", "module path")
@@ -59,6 +62,14 @@ func main() {
 		changed := false
 		for _, im := range f.Imports {
 			p, _ := strconv.Unquote(im.Path.Value)
+			if fs, ok := fixedShim[p]; ok && len(restrict) == 0 {
+				if im.Name == nil {
+					im.Name = ast.NewIdent(filepath.Base(p))
+				}
+				im.Path.Value = strconv.Quote(*mod + "/utils/verifhook/" + fs)
+				changed = true
+				continue
+			}
 			shim, ok := shimOf[p]
 			if !ok {
 				continue
